@@ -154,7 +154,8 @@ func rulesC14(c *Ctx) {
 
 	// test-only setters must not have production callers
 	c.Rule("C14.a-testonly", "setters excluded from the guarded-field inference because they exist for tests have no non-test caller")
-	testOnly := map[string]string{"ugm.Manager.GetUserResources": "test-only reader (exception in C14.a)", "ugm.Manager.GetGroupResources": "test-only reader (exception in C14.a)",
+	testOnly := map[string]string{"ugm.UserTracker.getTrackedApplications": "test-only accessor (exception in C14.e)", "ugm.GroupTracker.getTrackedApplications": "test-only accessor (exception in C14.e)",
+		"ugm.Manager.GetUserResources": "test-only reader (exception in C14.a)", "ugm.Manager.GetGroupResources": "test-only reader (exception in C14.a)",
 		"scheduler.PartitionContext.markPartitionForRemoval": "dead code (exception in C14.a for handlePartitionEvent)"}
 	for k, v := range lockTestOnly {
 		testOnly[k] = v
@@ -197,6 +198,57 @@ func rulesC14(c *Ctx) {
 		c.Check("C14.b", "re-entry "+r.Callee.Name+" from "+r.Caller.Name, r.Call, false, "%s takes the lock of %s (level %d) which %s already holds (level %d): self-deadlock on a non-reentrant RWMutex", r.Callee.Name, r.Owner, r.Takes, r.Caller.Name, r.Held)
 	}
 	c.Check("C14.b", "no re-entrant acquisition", nil, true, "")
+
+	// ------------------------------------------------------------- C14.e no live reference escapes the lock
+	c.Rule("C14.e", "no function hands out (returns) a lock-guarded field whose content is changed in place under the lock: the resource/map/slice behind the reference would be read by the caller without the lock while a writer mutates it (fields that are only ever replaced as a whole are immutable snapshots and may be returned)")
+	c.Except("C14.e", "ugm.UserTracker.appGroupTrackers returned by ugm.UserTracker.getTrackedApplications", "test-only accessor: no production caller (C14.a-testonly)")
+	c.Except("C14.e", "ugm.GroupTracker.applications returned by ugm.GroupTracker.getTrackedApplications", "test-only accessor: no production caller (C14.a-testonly)")
+	nRet := 0
+	for _, fn := range p.funcs {
+		if fn.Decl.Body == nil {
+			continue
+		}
+		ast.Inspect(fn.Decl.Body, func(n ast.Node) bool {
+			rs, ok := n.(*ast.ReturnStmt)
+			if !ok {
+				return true
+			}
+			for _, r := range rs.Results {
+				f := p.SelField(r)
+				if f == nil {
+					continue
+				}
+				ls := la.byField[f]
+				if ls == nil || !ls.Guarded[f] || !c14Scope[pkgOfStruct(ls.Name)] {
+					continue
+				}
+				why := ""
+				if ls.PtrMutated[f] {
+					why = "the object it points to is mutated in place (AddTo/SubFrom/... under the lock)"
+				} else if ex, has := ls.ContentMut[f]; has {
+					why = "its elements are changed in place, e.g. at " + ex
+				}
+				sel, _ := unparen(r).(*ast.SelectorExpr)
+				if sel != nil && la.underConstruction(fn, sel.X) {
+					continue
+				}
+				nRet++
+				name := ls.Name + "." + f.Name()
+				if why == "" {
+					c.Check("C14.e", name+" returned by "+fn.Name, rs, true, "")
+					continue
+				}
+				// unexported helpers whose callers hold the lock are covered by C14.a (requires-lock): only
+				// functions that take the lock themselves (and so release it before the caller uses the value)
+				// or exported accessors leak
+				lf := la.funcs[fn]
+				_, requires := lf.requires[-1]
+				c.Check("C14.e", name+" returned by "+fn.Name, rs, requires, "%s returns the live %s although %s: callers read it after the lock is released", fn.Name, name, why)
+			}
+			return true
+		})
+	}
+	c.Floor("C14.e", "returns of guarded fields analysed", nRet, 40)
 
 	// ------------------------------------------------------------- C14.c lock order
 	c.Rule("C14.c", "the type-level acquired-while-held graph (lock of type B taken, directly or through static calls and module implementations of interface methods, while a lock of type A is certainly held) has no cycle between different types; a second lock of the SAME type is only taken towards the parent (x.parent while holding x)")
